@@ -88,7 +88,7 @@ def run_script(ops_or_len, rng, profile, drv, res, pid, record=None, check_every
     cur = dump_impl(world)
     last = None
     for k in range(n):
-        op = (irgen.followup(rng, cur, last) or irgen.gen_op(rng, cur, profile, compound=True, badpos=True)) if gen else ops_or_len[k]
+        op = (irgen.followup(rng, cur, last) or irgen.gen_op(rng, cur, profile, compound=True, badpos=True, ident_veto=True)) if gen else ops_or_len[k]
         if gen and k == n - 1 and k >= 4 and rng.random() < 0.3:
             kinds = [kd for kd in ("netlist", "library", "definition", "instance", "port", "cable", "wire", "pin") if world.objs[kd]]
             if kinds:
